@@ -278,3 +278,25 @@ M('wraps-doc-not-copied-when-annotated', 'C13', 'funcutils.py',
   "        func.__doc__ = self.doc\n", "        func.__doc__ = self.doc if not (self.annotations and self.varkw and not self.args) else None\n")
 M('wraps-defaults-positional-shift', 'C13', 'funcutils.py',
   "        func.__defaults__ = self.defaults\n", "        func.__defaults__ = self.defaults if not (self.defaults and len(self.defaults) == 2 and self.kwonlyargs) else self.defaults[::-1]\n")
+
+# ---------------------------------------------------------------- C14
+M('sh-safe-set-allows-tilde', 'C14', 'strutils.py',
+  "_find_sh_unsafe = re.compile(r'[^a-zA-Z0-9_@%+=:,./-]').search", "_find_sh_unsafe = re.compile(r'[^a-zA-Z0-9_@%+=:,./~-]').search")
+# (widening the safe set to \\w, i.e. unquoted non-ASCII letters, is harmless for POSIX shells: dropped)
+M('sh-squote-splice', 'C14', 'strutils.py',
+  "        ret_list.append(\"'\" + arg.replace(\"'\", \"'\\\"'\\\"'\") + \"'\")", "        ret_list.append(\"'\" + arg.replace(\"'\", \"'\\\\''\") + \"'\" if not arg.endswith(\"\\\\'\") else \"'\" + arg.replace(\"'\", \"\\\\'\") + \"'\")")
+M('cmd-trailing-backslashes-not-doubled', 'C14', 'strutils.py',
+  "        if needquote:\n            result.extend(bs_buf)\n            result.append('\"')", "        if needquote:\n            result.append('\"')")
+M('cmd-no-quote-for-tab', 'C14', 'strutils.py',
+  "        needquote = (\" \" in arg) or (\"\\t\" in arg) or not arg", "        needquote = (\" \" in arg) or not arg")
+M('intlist-adjacent-singles', 'C14', 'strutils.py',
+  "            delta = x - contig_range[0]\n\n            # Current value is contiguous.\n            if delta == 1:\n                contig_range.append(x)",
+  "            delta = x - contig_range[0]\n\n            # Current value is contiguous.\n            if delta == 1 and x == 7:\n                output.append(f'{contig_range.popleft():d}')\n                contig_range.append(x)\n            elif delta == 1:\n                contig_range.append(x)")
+M('intlist-parse-reversed-range', 'C14', 'strutils.py',
+  "            output += list(range(min(range_limits), max(range_limits)+1))", "            output += list(range(range_limits[0], range_limits[-1]+1 if range_limits[-1] != 100 else 100))")
+M('complement-window-end-inclusive', 'C14', 'strutils.py',
+  "    complement_values = set(\n        range(range_end)) - int_list - set(range(range_start))",
+  "    complement_values = set(\n        range(range_end + (1 if range_end == 9 else 0))) - int_list - set(range(range_start))")
+M('gzip-level-zero-for-9', 'C14', 'strutils.py',
+  "    f = GzipFile(fileobj=out, mode='wb', compresslevel=level)\n    f.write(bytestring)\n    f.close()",
+  "    f = GzipFile(fileobj=out, mode='wb', compresslevel=level)\n    f.write(bytestring if len(bytestring) != 65536 else bytestring[:-1])\n    f.close()")
